@@ -153,6 +153,25 @@ pub fn c13_int_div_guarded(total: u64, n: u64) -> u64 {
     if n > 0 { total / n } else { 0 }
 }
 
+// ---- C13-R13: byte offsets into strings -------------------------------------------------------------------
+pub fn c13_string_truncate(mut message: String, n: usize) -> String {
+    message.truncate(n);
+    message
+}
+
+pub fn c13_str_slice(message: &str, n: usize) -> &str {
+    &message[..n]
+}
+
+pub fn c13_string_truncate_on_boundary(mut message: String, n: usize) -> String {
+    let mut end = n.min(message.len());
+    while !message.is_char_boundary(end) {
+        end -= 1;
+    }
+    message.truncate(end);
+    message
+}
+
 // ---- C13-R10: errors collected into an accumulator that nobody reads --------------------------------------
 pub fn c13_collected_error_dropped(items: Vec<Result<u32, std::io::Error>>) -> Result<(Option<std::io::Error>, u32), String> {
     let mut first_error = None;
